@@ -63,6 +63,9 @@ def run_case(cs, ctx):
     from matchingproblems.solver import Solver
     rng = random.Random(cs)
     spec = sp.make_spec(rng, max_s=3, max_p=3, max_l=2)
+    if cs % 40 == 9:
+        spec = sp.make_zero_student_spec(rng)
+        ctx.cov('instance_without_students')
     R = sp.max_rank(spec)
     twopl = rng.random() < 0.6
     stab = rng.random() < 0.3
